@@ -61,6 +61,12 @@ int main( int argc,char * argv [ ] ){
 }
 enum class E : int { A = 1 , B } ;
 using T = int ( * ) ( int ) ;
+struct Conv { operator const char * ( ) const ; operator unsigned long ( ) ; } ;
+void qt( Obj * a , Obj * b ){
+    connect( a , SIGNAL( changed( QList< int > & , int * ) ) , b , SLOT( onChanged( QList< int > & , int * ) ) ) ;
+    std :: vector< std :: pair< int , long > > w ; std :: map< int , int > & r = make( a , b ) ; int * p = get( ( a ) ) ; T t = T( ) ;
+    connect( a , SIGNAL( done( ) ) , b , SLOT( quit( ) ) ) ; use( w , r , p , t ) ;
+}
 """,
 }
 
